@@ -1658,7 +1658,7 @@ ok:
                The status_request flag will only have been set if a
                ssl->keys->OCSPResponseBuf was present during extension parse */
             messageSize += ssl->hshakeHeadLen + ssl->recordHeadLen + 4 +
-                ssl->keys->OCSPResponseBufLen;
+                ssl->OCSPResponseBufLen;
             messageSize += secureWriteAdditions(ssl, 1);
         }
 #  endif /* USE_OCSP_RESPONSE */
@@ -4673,7 +4673,7 @@ static int32 writeCertificateStatus(ssl_t *ssl, sslBuf_t *out)
     c = out->end;
     end = out->buf + out->size;
 
-    ocspLen = ssl->keys->OCSPResponseBufLen;
+    ocspLen = ssl->OCSPResponseBufLen;
     messageSize = ssl->recordHeadLen + ssl->hshakeHeadLen + 4 + ocspLen;
 
     if ((rc = writeRecordHeader(ssl, SSL_RECORD_TYPE_HANDSHAKE,
@@ -4693,7 +4693,7 @@ static int32 writeCertificateStatus(ssl_t *ssl, sslBuf_t *out)
     *c = 0; c++;
     *c = (ocspLen & 0xFF00) >> 8; c++;
     *c = (ocspLen & 0xFF); c++;
-    Memcpy(c, ssl->keys->OCSPResponseBuf, ocspLen);
+    Memcpy(c, ssl->OCSPResponseBuf, ocspLen);
     c += ocspLen;
 
     if ((rc = postponeEncryptRecord(ssl, SSL_RECORD_TYPE_HANDSHAKE,
